@@ -28,6 +28,7 @@ mod verif_witness_c20_conflicts {
         let mut rng = Rng(0x9E37_79B9_7F4A_7C15);
         let diagnostics = sink();
         let (mut n_conflicting, mut n_clean) = (0, 0);
+        let mut distinct: std::collections::HashSet<Vec<String>> = std::collections::HashSet::new();
         for _ in 0..worlds {
             let mut aux = AuxiliaryData::default();
             let mut texts: Vec<&str> = Vec::new();
@@ -44,6 +45,8 @@ mod verif_witness_c20_conflicts {
             let mut expected_conflict = false;
             let mut one = matchit::Router::new();
             for g in &guards { if one.insert(g.matchit_pattern(), ()).is_err() { expected_conflict = true; } }
+            let key: Vec<String> = guards.iter().map(|g| g.matchit_pattern()).collect();
+            if key.len() >= 2 && distinct.insert(key.clone()) && distinct.len() <= 4 { println!("VERIF-SAMPLE guards {texts:?} (patterns {key:?}) -> {}", if expected_conflict { "refused" } else { "accepted" }); }
             let before = diagnostics.len();
             let r = DomainRouter::detect_domain_conflicts(&aux, &diagnostics);
             let pushed = diagnostics.len() - before;
@@ -57,6 +60,7 @@ mod verif_witness_c20_conflicts {
             }
         }
         assert!(n_conflicting > worlds / 10 && n_clean > worlds / 10, "the generator covers both outcomes ({n_conflicting} / {n_clean})");
+        println!("VERIF-EXPLORED test=a_set_of_guards_is_refused_exactly_when_the_router_refuses_one_of_them distinct_nontrivial={} rule=distinct ORDERED lists of patterns, counted in a set; non-trivial = at least two different guards ({n_conflicting} refused / {n_clean} accepted worlds)", distinct.len());
         println!("VERIF-BOUNDED test=a_set_of_guards_is_refused_exactly_when_the_router_refuses_one_of_them evaluations={worlds} bound={worlds} pseudo-random sets of up to 5 guards from a pool of 14 (literals, parameters, catch-alls, suffixed parameters, a trailing-dot twin), matchit (one router, registration order) as the oracle");
     }
 }
